@@ -7,7 +7,7 @@ from .filters import INFO, UNIQ, P
 
 R_ = 'wpull/processor/rule.py'
 declare_class('HookDispatcher', {})
-declare_class('RobotsTxtChecker', {})
+declare_class('RobotsTxtChecker', {'g_consulted': TInt()})      # ghost: how often the checker was asked (each consultation may put a GET /robots.txt on the wire)
 declare_class('HTTPRequest', {'_url_info': TOpt(TObj('URLInfo'))})
 declare_class('ItemSession', {'_request': TOpt(TObj('HTTPRequest')), 'url_record': TObj('URLRecord')})
 declare_class('FetchRule', {'_url_filter': TOpt(TObj('DemuxURLFilter')), '_robots_txt_checker': TOpt(TObj('RobotsTxtChecker')),
@@ -25,8 +25,10 @@ Assumed('wpull/pipeline/session.py', 'ItemSession.is_virtual', {'self': TObj('It
 _allowed = z3.Function('robots_allowed', z3.IntSort(), z3.IntSort(), z3.BoolSort())
 SPECFUNS['robots_allowed'] = lambda ex, st, chk, req: VBool(_allowed(chk.term, req.term))
 Assumed('wpull/protocol/http/robots.py', 'RobotsTxtChecker.can_fetch', {'self': TObj('RobotsTxtChecker'), 'request': TObj('HTTPRequest')}, ret=TBool(),
-        ensures=['result == robots_allowed(self, request)'], raises={'ServerError': [], 'ProtocolError': [], 'NetworkError': [], 'SSLVerificationError': []},
-        note='verified under C20 (specs/robots.py)')
+        modifies=['self.g_consulted'], ensures=['result == robots_allowed(self, request)', 'self.g_consulted == old(self.g_consulted) + 1'],
+        raises={'ServerError': ['self.g_consulted == old(self.g_consulted) + 1'], 'ProtocolError': ['self.g_consulted == old(self.g_consulted) + 1'],
+                'NetworkError': ['self.g_consulted == old(self.g_consulted) + 1'], 'SSLVerificationError': ['self.g_consulted == old(self.g_consulted) + 1']},
+        note='verified under C20 (specs/robots.py); the ghost counts consultations')
 
 G = 'self._url_filter._url_filters'
 PASS = lambda j, u, r: 'passes(%s[%s], %s, %s)' % (G, j, u, r)
@@ -66,12 +68,17 @@ Contract(R_, 'FetchRule.check_generic_request', {'self': TObj('FetchRule'), 'ite
     ret=TTuple(TBool(), TStr()), prop='C02', requires=REQ,
     ensures=[('sound', waiver(U, 'item_session.url_record', 'False')[0]), ('complete', waiver(U, 'item_session.url_record', 'False')[1])],
     raises={})
-Contract(R_, 'FetchRule.consult_robots_txt', {'self': TObj('FetchRule'), 'request': TObj('HTTPRequest')}, ret=TBool(), prop='C02/C20',
+CONSULTED = 'all_of("RobotsTxtChecker.g_consulted")'
+Contract(R_, 'FetchRule.consult_robots_txt', {'self': TObj('FetchRule'), 'request': TObj('HTTPRequest')}, ret=TBool(), prop='C02/C20', modifies=[CONSULTED],
     ensures=[('ref', 'result == (self._robots_txt_checker is None or robots_allowed(self._robots_txt_checker, request))')],
     raises={'ServerError': [], 'ProtocolError': [], 'NetworkError': [], 'SSLVerificationError': []})
 Contract(R_, 'FetchRule.check_initial_web_request', {'self': TObj('FetchRule'), 'item_session': TObj('ItemSession'), 'request': TObj('HTTPRequest')},
-    ret=TTuple(TBool(), TStr()), prop='C02/C20', requires=REQ,
+    ret=TTuple(TBool(), TStr()), prop='C02/C20', requires=REQ, modifies=[CONSULTED],
     ensures=[('sound', waiver(U, 'item_session.url_record', 'False')[0]),
+             # the robots.txt exception of C02 is for "an origin being VISITED": an item the filters reject is not visited, so the robots checker (which may fetch
+             # /robots.txt of that origin) is not even asked
+             ('no-robots-lookup-for-a-rejected-url', 'implies(not forall(0, len(%s), lambda j: %s), self._robots_txt_checker is None or '
+                                                     'self._robots_txt_checker.g_consulted == old(self._robots_txt_checker.g_consulted))' % (G, PASS('j', U, 'item_session.url_record')), {'C02'}),
              ('robots', 'implies(result[0], self._robots_txt_checker is None or robots_allowed(self._robots_txt_checker, request))', {'C20', 'C02'}),
              ('complete', 'implies(forall(0, len(%s), lambda j: %s) and (self._robots_txt_checker is None or robots_allowed(self._robots_txt_checker, request)), result[0])'
               % (G, PASS('j', U, 'item_session.url_record')))],
